@@ -336,6 +336,195 @@ def _insert64(it, key, a, ce):
     return join(l)
 
 
+@x86("_mm_insert_epi16")
+def _insert16(it, key, a, ce):
+    l = lanes(a[0], 16)
+    l[imm(ce) & 7] = a[1][:16]
+    return join(l)
+
+
+@x86("_mm_insert_epi8")
+def _insert8(it, key, a, ce):
+    l = lanes(a[0], 8)
+    l[imm(ce) & 15] = a[1][:8]
+    return join(l)
+
+
+@x86("_mm_extract_epi16")
+def _extract16(it, key, a, ce):
+    return bv.zext(lanes(a[0], 16)[imm(ce) & 7], 32)
+
+
+@x86("_mm_extract_epi8")
+def _extract8(it, key, a, ce):
+    return bv.zext(lanes(a[0], 8)[imm(ce) & 15], 32)
+
+
+@x86("_mm256_extract_epi32")
+def _extract256_32(it, key, a, ce):
+    return lanes(a[0], 32)[imm(ce) & 7]
+
+
+@x86("_mm256_extract_epi64")
+def _extract256_64(it, key, a, ce):
+    return lanes(a[0], 64)[imm(ce) & 3]
+
+
+@x86("_mm256_insert_epi32")
+def _insert256_32(it, key, a, ce):
+    l = lanes(a[0], 32)
+    l[imm(ce) & 7] = a[1]
+    return join(l)
+
+
+@x86("_mm256_insert_epi64")
+def _insert256_64(it, key, a, ce):
+    l = lanes(a[0], 64)
+    l[imm(ce) & 3] = a[1]
+    return join(l)
+
+
+@x86("_mm_blend_epi32", "_mm256_blend_epi32")
+def _blend32(it, key, a, ce):
+    im = imm(ce)
+    return join(y if (im >> i) & 1 else x for i, (x, y) in enumerate(zip(lanes(a[0], 32), lanes(a[1], 32))))
+
+
+@x86("_mm256_blend_epi16")
+def _blend256_16(it, key, a, ce):
+    im = imm(ce)
+    return join(y if (im >> (i % 8)) & 1 else x for i, (x, y) in enumerate(zip(lanes(a[0], 16), lanes(a[1], 16))))
+
+
+@x86("_mm_blendv_epi8", "_mm256_blendv_epi8")
+def _blendv8(it, key, a, ce):
+    return join(bv.ite(m[7], y, x) for x, y, m in zip(lanes(a[0], 8), lanes(a[1], 8), lanes(a[2], 8)))
+
+
+def _lanewise_mul(w):
+    def f(it, key, a, ce):
+        return join(bv.mul(x, y) for x, y in zip(lanes(a[0], w), lanes(a[1], w)))
+    return f
+
+
+x86("_mm_mullo_epi16", "_mm256_mullo_epi16")(_lanewise_mul(16))
+x86("_mm_mullo_epi32", "_mm256_mullo_epi32")(_lanewise_mul(32))
+
+
+@x86("_mm_mul_epu32", "_mm256_mul_epu32")
+def _mul_epu32(it, key, a, ce):
+    return join(bv.mul(bv.zext(x[:32], 64), bv.zext(y[:32], 64)) for x, y in zip(lanes(a[0], 64), lanes(a[1], 64)))
+
+
+def _minmax(w, op, pick_a):
+    def f(it, key, a, ce):
+        out = []
+        for x, y in zip(lanes(a[0], w), lanes(a[1], w)):
+            c = bv.cmp_bit(op, x, y)
+            out.append(bv.ite(c, x, y) if pick_a else bv.ite(c, y, x))
+        return join(out)
+    return f
+
+
+for _w, _sfx in ((8, "epu8"), (16, "epu16"), (32, "epu32")):
+    x86("_mm_min_" + _sfx, "_mm256_min_" + _sfx)(_minmax(_w, "ult", True))
+    x86("_mm_max_" + _sfx, "_mm256_max_" + _sfx)(_minmax(_w, "ult", False))
+for _w, _sfx in ((8, "epi8"), (16, "epi16"), (32, "epi32")):
+    x86("_mm_min_" + _sfx, "_mm256_min_" + _sfx)(_minmax(_w, "slt", True))
+    x86("_mm_max_" + _sfx, "_mm256_max_" + _sfx)(_minmax(_w, "slt", False))
+
+
+def _cvtext(src_w, dst_w, signed):
+    def f(it, key, a, ce):
+        n = (256 if "256" in key.split("::")[-1].split("_cvt")[0] else 128) // dst_w
+        ext = bv.sext if signed else bv.zext
+        return join(ext(x, dst_w) for x in lanes(a[0], src_w)[:n])
+    return f
+
+
+for _s in (8, 16, 32):
+    for _d in (16, 32, 64):
+        if _d > _s:
+            x86("_mm_cvtepu%d_epi%d" % (_s, _d), "_mm256_cvtepu%d_epi%d" % (_s, _d))(_cvtext(_s, _d, False))
+            x86("_mm_cvtepi%d_epi%d" % (_s, _d), "_mm256_cvtepi%d_epi%d" % (_s, _d))(_cvtext(_s, _d, True))
+
+
+def _shift_by_count(w, kind):
+    def f(it, key, a, ce):
+        c = bv.const_value(a[1][:64])
+        if c is None:
+            raise Undecided("vector shift with a non-constant count register")
+        if c >= w:
+            if kind == "sra":
+                return join((x[-1],) * w for x in lanes(a[0], w))
+            return (ZERO,) * len(a[0])
+        op = {"sll": bv.shl, "srl": bv.lshr, "sra": bv.ashr}[kind]
+        return join(op(x, c) for x in lanes(a[0], w))
+    return f
+
+
+for _w in (16, 32, 64):
+    x86("_mm_sll_epi%d" % _w, "_mm256_sll_epi%d" % _w)(_shift_by_count(_w, "sll"))
+    x86("_mm_srl_epi%d" % _w, "_mm256_srl_epi%d" % _w)(_shift_by_count(_w, "srl"))
+for _w in (16, 32):
+    x86("_mm_sra_epi%d" % _w, "_mm256_sra_epi%d" % _w)(_shift_by_count(_w, "sra"))
+x86("_mm256_srai_epi16")(_sra(16))
+
+
+@x86("_mm256_slli_si256", "_mm256_bslli_epi128")
+def _bslli256(it, key, a, ce):
+    k = min(imm(ce) & 0xff, 16)
+    return join(bv.shl(h, 8 * k) for h in lanes(a[0], 128))
+
+
+@x86("_mm256_srli_si256", "_mm256_bsrli_epi128")
+def _bsrli256(it, key, a, ce):
+    k = min(imm(ce) & 0xff, 16)
+    return join(bv.lshr(h, 8 * k) for h in lanes(a[0], 128))
+
+
+@x86("_mm256_shufflelo_epi16")
+def _shufflelo256(it, key, a, ce):
+    im = imm(ce)
+    out = []
+    for h in lanes(a[0], 128):
+        l = lanes(h, 16)
+        out += [l[(im >> (2 * i)) & 3] for i in range(4)] + l[4:]
+    return join(out)
+
+
+@x86("_mm256_shufflehi_epi16")
+def _shufflehi256(it, key, a, ce):
+    im = imm(ce)
+    out = []
+    for h in lanes(a[0], 128):
+        l = lanes(h, 16)
+        out += l[:4] + [l[4 + ((im >> (2 * i)) & 3)] for i in range(4)]
+    return join(out)
+
+
+@x86("_mm256_packus_epi16")
+def _packus256(it, key, a, ce):
+    return join(_packus(it, key, (x, y), ce) for x, y in zip(lanes(a[0], 128), lanes(a[1], 128)))
+
+
+@x86("_mm256_packs_epi16")
+def _packs256(it, key, a, ce):
+    return join(_packs(it, key, (x, y), ce) for x, y in zip(lanes(a[0], 128), lanes(a[1], 128)))
+
+
+@x86("_mm256_permutevar8x32_epi32")
+def _permvar8x32(it, key, a, ce):
+    l = lanes(a[0], 32)
+    out = []
+    for ix in lanes(a[1], 32):
+        c = bv.const_value(ix[:3])
+        if c is None:
+            raise Undecided("vpermd with non-constant control")
+        out.append(l[c])
+    return join(out)
+
+
 @x86("_mm_move_epi64")
 def _move64(it, key, a, ce):
     return a[0][:64] + (ZERO,) * 64
@@ -1299,6 +1488,18 @@ def _call_fn(it, f, args, fty):
             return it.call_instance(cands[0], [f] + args)
         raise Undecided("closure body lookup for %s: %d candidates" % (d["def"], len(cands)))
     raise Undecided("call of %r" % (f,))
+
+
+@model("lazy_static::lazy::Lazy::<T>::get")
+def _lazy_get(it, key, a, ce):
+    """lazy_static: the value is whatever the initialiser returns (evaluated once per interpreter)."""
+    cache = it.__dict__.setdefault("_lazy_cells", {}) if hasattr(it, "__dict__") else None
+    if cache is None:
+        raise Undecided("lazy_static cache")
+    if key not in cache:
+        v = _call_fn(it, a[1], [], ce["generic_args"][-1]["ty"])
+        cache[key] = it.new_cell(v, "lazy_static")
+    return Ptr(cache[key], ())
 
 
 @model("<&T as core::convert::AsRef<U>>::as_ref", "<&mut T as core::convert::AsRef<U>>::as_ref")
